@@ -38,6 +38,7 @@ def setup(ex):
     V, T = _mods()
     shims.install(V, float=lia.FloatShim, str=lia.StrShimL, int=lia.IntShimL)
     shims.install(T, float=lia.FloatShim, int=lia.IntShimL)
+    shims.rewrite_function(V.Value, 'value_sat')          # ('<fmt>' % x on a symbolic double stays symbolic, see symx.lia.SDecG)
 
 
 def _amount_string(ex, digits_value, d, unit):
